@@ -22,7 +22,10 @@ def compile_net(
     if par_overrides:
         pars.update(par_overrides)
     net.step(engine=eng, **S.opts_kwargs(opts), **pars)
-    F = eng.to_function(net, compact=compact, more_out=more_out, parameters=parameters, **pars)
+    # a parameter declared under a key that is also a model-parameter name (e.g. "T") is forwarded by
+    # to_function itself; passing it twice is a caller error, not a property of the library
+    others = {k: v for k, v in pars.items() if not (parameters and k in parameters)}
+    F = eng.to_function(net, compact=compact, more_out=more_out, parameters=parameters, **others)
     return F, net, els
 
 
